@@ -242,7 +242,26 @@ func (f *Frame) expr(st *State, e ast.Expr) Term {
 			s := f.expr(st, e.X)
 			i := f.expr(st, e.Index)
 			f.safe(st, And(app(SBool, "<=", IntLit(0), i), app(SBool, "<", i, SLen(s))), "index", e.Pos())
-			return Select(SArr(s), i)
+			var et types.Type
+			if sl, ok := xt.(*types.Slice); ok {
+				et = sl.Elem()
+			} else {
+				et = xt.(*types.Array).Elem()
+			}
+			if f.spec && !isSliceSort(sliceElemSort(s.Sort)) {
+				// a specification reading s[i]: the element is a well-formed value (nil or a live object) provided
+				// the index is in range - stated as a guarded fact because specs may index out of range
+				v := Select(SArr(s), i)
+				if !f.inOld && len(f.bound) == 0 && vc.quantDepth == 0 {
+					for _, fact := range f.typeFacts(st, v, et) {
+						if !strings.HasPrefix(fact.S, "(forall") {
+							vc.assume(st, Imp(And(app(SBool, "<=", IntLit(0), i), app(SBool, "<", i, SLen(s))), fact))
+						}
+					}
+				}
+				return v
+			}
+			return f.typed(st, Select(SArr(s), i), et)
 		case *types.Basic: // string indexing: byte as Int code
 			s := f.expr(st, e.X)
 			i := f.expr(st, e.Index)
@@ -643,6 +662,9 @@ func (f *Frame) heapWellFormed(st *State, h Term, ft types.Type) {
 		vc.asserted[key] = true
 		saved := vc.quantDepth
 		vc.quantDepth = 0
+		// unguarded: the fact speaks about the pair (h, alloc) only; on paths where these terms are not the
+		// current heap they denote unconstrained values for which the fact is satisfiable, so no path's context
+		// becomes inconsistent, and on paths that share them it is true
 		if !strings.Contains(st.pc.S, "?") {
 			vc.assume(st, Forall([]Term{r, i}, Imp(guard, inner), e))
 		}
@@ -928,6 +950,15 @@ func (f *Frame) appendTerm(st *State, call *ast.CallExpr) Term {
 		n := SLen(s)
 		vc.assumeGlobal(Forall([]Term{i}, Eq(Select(arr, i),
 			Ite(app(SBool, "<", i, n), Select(SArr(s), i), Select(SArr(t), app(SInt, "-", i, n)))), Select(arr, i)))
+		if !strings.HasPrefix(s.S, "(") {
+			// redundant instances with triggers on the OLD slices (see the single-element case)
+			vc.assumeGlobal(Forall([]Term{i}, Imp(And(app(SBool, "<=", IntLit(0), i), app(SBool, "<", i, n)),
+				Eq(Select(arr, i), Select(SArr(s), i))), Select(SArr(s), i)))
+		}
+		if !strings.HasPrefix(t.S, "(") {
+			vc.assumeGlobal(Forall([]Term{i}, Imp(And(app(SBool, "<=", IntLit(0), i), app(SBool, "<", i, SLen(t))),
+				Eq(Select(arr, app(SInt, "+", n, i)), Select(SArr(t), i))), Select(SArr(t), i)))
+		}
 		return vc.define("app", MkSlice(arr, app(SInt, "+", n, SLen(t))))
 	}
 	arr := SArr(s)
